@@ -193,8 +193,50 @@ def reorder_call_args(d, reorders):
 
 
 # ---- 3. new helpers are spliced into their callers ---------------------------------------------------------------------------
-def splice_call(d, bi, h):
+_SPLICE_SEQ = [0]
+
+
+def clone_closures(d, h, all_fns, new_fns):
+    """the closures of helper h get a private copy for this splice site (id below d, parent = d or the copied enclosing closure): a helper
+    spliced into two call sites must not share one closure body between them (its captures and its consumer differ per site).
+    Returns {old closure id: new closure id}."""
+    import copy
+    table = {}
+    kids = sorted(gid for gid in all_fns if gid.startswith(h["id"] + "::{closure"))
+    if not kids:
+        return table
+    _SPLICE_SEQ[0] += 1
+    for gid in kids:
+        suffix = gid[len(h["id"]):]                      # "::{closure#0}" or "::{closure#0}::{closure#1}"
+        table[gid] = d["id"] + suffix.replace("::{closure#", "::{closure#%d" % (1000 * _SPLICE_SEQ[0]), 1)
+    for gid in kids:
+        g = copy.deepcopy(all_fns[gid])
+        g = rename_ids_exact(g, table)
+        g["id"] = table[gid]
+        if g.get("parent") == h["id"]:
+            g["parent"] = d["id"]
+        g["root"] = d.get("root") or d["id"]
+        g["spliced_from"] = gid
+        new_fns[g["id"]] = g
+    return table
+
+
+def rename_ids_exact(x, table):
+    if isinstance(x, str):
+        return table.get(x, x)
+    if isinstance(x, list):
+        return [rename_ids_exact(y, table) for y in x]
+    if isinstance(x, dict):
+        return {k: rename_ids_exact(v, table) for k, v in x.items()}
+    return x
+
+
+def splice_call(d, bi, h, all_fns=None, new_fns=None):
     """replace the call in block bi of fn dict d by the body of fn dict h"""
+    ctable = clone_closures(d, h, all_fns, new_fns) if all_fns is not None else {}
+    if ctable:
+        h = dict(h)
+        h["blocks"] = rename_ids_exact(h["blocks"], ctable)
     t = d["blocks"][bi]["t"]
     loff = len(d["locals"])
     boff = len(d["blocks"])
@@ -243,6 +285,8 @@ def references_fn_item(x, fid):
 def inline_new_functions(all_fns, old, notes, max_rounds=4):
     """all_fns: {id: fn dict}.  Returns the set of ids that were spliced away."""
     gone = set()
+    added = {}
+    inline_new_functions.added = added
     for _ in range(max_rounds):
         new = {}
         for fid, d in all_fns.items():
@@ -257,6 +301,7 @@ def inline_new_functions(all_fns, old, notes, max_rounds=4):
         if not new:
             break
         did = False
+        new_fns = {}
         for fid, d in list(all_fns.items()):
             if fid in gone:
                 continue
@@ -266,7 +311,7 @@ def inline_new_functions(all_fns, old, notes, max_rounds=4):
                 tid = direct_callee(t)
                 h = new.get(tid)
                 if h is not None and h is not d and len(t[2]) == h["nargs"] and t[1].get("res_kind", "item") == "item":
-                    splice_call(d, bi, h)
+                    splice_call(d, bi, h, all_fns, new_fns)
                     did = True
                 bi += 1
         # a helper with no direct call and no value reference left disappears
@@ -278,7 +323,12 @@ def inline_new_functions(all_fns, old, notes, max_rounds=4):
             called = any(fid in d.get("inlined_from", []) for d in all_fns.values())
             if called and not as_value:
                 gone.add(fid)
+                for gid in list(all_fns):
+                    if gid.startswith(fid + "::{closure"):
+                        gone.add(gid)           # its closures live on as per-site copies
                 notes.append("new helper spliced into its callers: %s" % fid)
+        all_fns.update(new_fns)
+        added.update(new_fns)
         if not did:
             break
     return gone
@@ -316,6 +366,13 @@ def canonicalise(loaded, fingerprints_path):
     all_fns = {fd["id"]: fd for d in loaded for fd in d["fns"]}
     gone = inline_new_functions(all_fns, old, notes)
     away = {}
+    added = getattr(inline_new_functions, "added", {})
+    if added:
+        crate_of = {fd["id"]: d for d in loaded for fd in d["fns"]}
+        for nid, g in added.items():
+            home = crate_of.get(g.get("spliced_from")) or crate_of.get(g.get("root"))
+            if home is not None and all(fd["id"] != nid for fd in home["fns"]):
+                home["fns"].append(g)
     if gone:
         for d in loaded:
             away.update({fd["id"]: (fd, d["crate"]) for fd in d["fns"] if fd["id"] in gone})
